@@ -190,19 +190,21 @@ CLAIMED.update({
              "section still open at end of input, or a closing tag that closes nothing followed by arbitrary text: rejected "
              "with -1, the error names the line of the first offence, callbacks exactly those of the prefix); "
              "ac_no_final_newline (same result, message included, with or without the final LF); ini_roundtrip incl. "
-             "literal `$` (DollarOk) and references nested one level; ac_long_line_chunks_partial (what fgets splits an "
-             "over-long line into); constants "
+             "literal `$` (DollarOk) and references nested one level; ac_long_comment_ignored (a comment of ANY length, in any section, makes no "
+             "callback and counts as one line) and ac_long_directive_rejected / ac_long_line_error (any other line longer "
+             "than MAX_LINESIZE-1 bytes: -1, \"Line is too long.\" naming that line, callbacks of the prefix only); constants "
              "regenerated from the headers. Correspondence: "
              "grammar-generated conforming and offending documents x option tables (take counts, types, scopes, flags), "
              "nesting, all bool spellings, number forms; reference oracle computed from the grammar value.",
         note="ac_accept_iff / ac_callbacks are proved for ARBITRARILY NESTED, properly closed sections incl. refusing "
-             "callbacks (induction over the document tree); over-long lines: reading-level theorem only (each 4095-byte piece "
-             "is handled as a line of its own; the tail of an over-long comment is parsed as a directive - observation, not "
-             "repaired); ini_roundtrip excludes nesting deeper than one level, an unclosed `${` and substituted texts "
+             "callbacks (induction over the document tree); over-long lines (repaired: the rest of a line that does not fit "
+             "is consumed): comments of any length are covered by every document-level theorem (FLineOk has no bound for "
+             "comments), other lines of the ACCEPTED documents are shorter than MAX_LINESIZE-1 (hypothesis of FLineOk / "
+             "OpenOk / CloseOk - longer ones are rejected, MDoc.tooLong); ini_roundtrip excludes nesting deeper than one level, an unclosed `${` and substituted texts "
              "containing `${`; a refusing DEFAULT handler is checked against the oracle only (model: non-refusing). "
              "trusted: Lean kernel, hand transcription (validated on explored documents), translator/confconsts.py, "
-             "gcc/ASan; C locale. Five defects of the pinned tree repaired first (the last: the default handler's error "
-             "was ignored and leaked).",
+             "gcc/ASan; C locale. Six defects of the pinned tree repaired first (the last two: the default handler's "
+             "error was ignored and leaked; the rest of an over-long line was parsed as the next line).",
         technique="Lean 4 proof (simulation of the raw tokenizer, classifier equalities, document induction) + K-gen constants + grammar-based differential correspondence",
         design="7/C20"),
 })
